@@ -11,8 +11,9 @@ The zone (`BTreeMap<RrKey, Arc<RecordSet>>`) is an association list kept in key 
 `Zone.set` (= erase, then insert at the sorted position — a `BTreeMap` has one position per key).
 RDATA is opaque (`bytes` = the wire form), except SOA whose serial the code reads and bumps, and
 the RFC 2136 "empty" RDATA (`RData::Update0`).  Integers are `Nat`; the one place where u32
-wrap-around matters (`SOA::increment_serial`, `serial += 1`, a debug-profile overflow panic) is
-explicit.  Not modelled: RRSIGs / DNSSEC signing (the handler under test has DNSSEC off), ANAME.
+wrap-around matters (`SOA::increment_serial` = `wrapping_add(1)`, and the RFC 1982 comparison of
+`SerialNumber`) is explicit.  The model mirrors the code after the repairs 23d5f1e, aeeb945,
+24305ec, 4cf469c, 1375dd7 (and 4a1b96f, d90c741 in `Model/Update.lean`).  Not modelled: RRSIGs / DNSSEC signing (the handler under test has DNSSEC off), ANAME.
 -/
 import HickoryVerif.Model.Name
 
@@ -95,22 +96,27 @@ def insertSorted (k : Key) (v : RSet) : Zone → Zone
 /-- `BTreeMap::insert` / writing through `entry()` / `get_mut()` -/
 def set (z : Zone) (k : Key) (v : RSet) : Zone := insertSorted k v (z.erase k)
 
-/-- record types of the keys at `name` inside `RrKey(name, Unknown(0)) .. RrKey(name, Unknown(65535))`
-(half-open: type 65535 itself is outside the range), in map order -/
+/-- record types of the keys at `name` inside `RrKey(name, Unknown(0)) ..= RrKey(name, Unknown(65535))`
+(inclusive since 1375dd7: every u16 type, i.e. every key at the name), in map order -/
 def typesAt (z : Zone) (name : Name) : List Nat :=
-  (z.filter (fun e => e.1.1 = name ∧ e.1.2 < 65535)).map (·.1.2)
+  (z.filter (fun e => e.1.1 = name)).map (·.1.2)
 
 end Zone
 
 /-! ### `RecordSet::insert` -/
 
-/-- the `to_replace` loop.  `none`: an element with equal RDATA is `==` the new record ⇒ `return
-false`.  `some (recs, replaced)`: every element with equal RDATA replaced in place. -/
+/-- `SerialNumber(i1) < SerialNumber(i2)` (`impl PartialOrd for SerialNumber`, RFC 1982 §3.2):
+`partial_cmp == Some(Less)`; at distance exactly 2³¹ neither value is less than the other. -/
+def serialNumberLt (i1 i2 : Nat) : Bool :=
+  decide ((i1 < i2 ∧ i2 - i1 < 2147483648) ∨ (i1 > i2 ∧ i1 - i2 > 2147483648))
+
+/-- the `to_replace` loop.  `none`: an element with equal RDATA is `==` the new record and has the
+same TTL ⇒ `return false`.  `some (recs, replaced)`: every element with equal RDATA replaced in place. -/
 def replaceDup (r : Rec) : List Rec → Option (List Rec × Bool)
   | [] => some ([], false)
   | x :: xs =>
     if x.dataEq r then
-      if x.eqv r then none
+      if x.eqv r && x.ttl == r.ttl then none
       else (replaceDup r xs).map fun p => (r :: p.1, true)
     else (replaceDup r xs).map fun p => (x :: p.1, p.2)
 
@@ -122,9 +128,12 @@ def insertPre (rs : RSet) (r : Rec) : Option RSet :=
     | [] => some []
     | ex :: _ =>
       match ex.rdata, r.rdata with
-      | .soa se _, .soa sn _ => if sn ≤ se then none else some []   -- plain `<=` on u32
+      | .soa se _, .soa sn _ => if !(serialNumberLt se sn) then none else some []
       | _, _ => none
-  else if r.rtype = T_CNAME ∨ r.rtype = T_ANAME then some []
+  else if r.rtype = T_CNAME ∨ r.rtype = T_ANAME then
+    match rs with
+    | ex :: _ => if ex.eqv r && ex.ttl == r.ttl then none else some []   -- identical: not an update
+    | [] => some []
   else some rs
 
 /-- `RecordSet::insert` on a clone: `(new records, true)` or `(unchanged, false)`. -/
@@ -184,8 +193,8 @@ def serial (z : Zone) (origin : Name) : Nat :=
     | _ => 0
   | none => 0
 
-/-- `InnerInMemory::increment_soa_serial` : the SOA RRset is removed first, the serial bumped
-with `+= 1` (debug-profile overflow panic at `u32::MAX`, *after* the removal), then upserted. -/
+/-- `InnerInMemory::increment_soa_serial` : the SOA RRset is removed, the serial bumped with
+`wrapping_add(1)` (`u32::MAX` → 0), the record upserted again. -/
 def incrementSoaSerial (zclass : Nat) (origin : Name) (z : Zone) : Zone × Outcome Nat :=
   let k : Key := (origin, T_SOA)
   match z.get k with
@@ -194,8 +203,8 @@ def incrementSoaSerial (zclass : Nat) (origin : Name) (z : Zone) : Zone × Outco
   | some (r :: _) =>
     match r.rdata with
     | .soa s rest =>
-      if s + 1 > U32_MAX then (z.erase k, .panic "soa:increment_serial:overflow")
-      else ((upsert zclass (z.erase k) { r with rdata := .soa (s + 1) rest }).1, .ok (s + 1))
+      ((upsert zclass (z.erase k) { r with rdata := .soa ((s + 1) % 4294967296) rest }).1,
+        .ok ((s + 1) % 4294967296))
     | _ => (z.erase k, .panic "increment_soa_serial:not-soa")
 
 /-! ### the query-path lookup that `verify_prerequisites` uses -/
